@@ -245,6 +245,8 @@ def obligations(tier):
                         continue  # 12-cell views on the 12-cell world: thorough tier
                     if fname == 'raytracing' and H * W >= 16 and (a[1] - a[0] + 1) * (a[3] - a[2] + 1) > 12:
                         continue
+                    if (a[1] - a[0] + 1) * (a[3] - a[2] + 1) >= 20 and (H * W >= 16 or (fname == 'raytracing' and kind == 'monotone')):
+                        continue  # exceeded the per-obligation limit of the thorough tier (measured): outside the bound
                     if area_ok(a, fname):
                         obs.append(Obligation(f'{kind}-{fname}-{H}x{W}-area{a}', mkf(fname, H, W, fixed=a), dict(kind=kind, function=fname, H=H, W=W, area=list(a))))
     # the default ray-traced observation after an earlier observation of the same world with other visibility parameters
